@@ -11,6 +11,7 @@ from __future__ import annotations
 
 import itertools
 import logging
+import re
 import math
 from fractions import Fraction
 
@@ -34,8 +35,12 @@ class _Capture(logging.Handler):
         self.records.append(record)
 
 
+LAST_WARNINGS = []  # messages of the WARNING records of the last observe() call that returned normally
+
+
 def observe(fn):
-    """-> ('raised'|'warned'|'ok', detail).  WARNING records are captured; text is not inspected."""
+    """-> ('raised'|'warned'|'ok', detail).  WARNING records are captured; the verdict does not look at
+    their text (LAST_WARNINGS keeps it for the one check that asks *which* flows were named)."""
     root = logging.getLogger()
     old_level, old_handlers = root.level, list(root.handlers)
     cap = _Capture()
@@ -51,6 +56,7 @@ def observe(fn):
             # else is a crash (the verdict itself never looks at this or at message texts)
             e._verif_crash = traceback.extract_tb(e.__traceback__)[-1].name != "_error_or_warning"
             return "raised", e
+        LAST_WARNINGS[:] = [r.getMessage() for r in cap.records if r.levelno >= logging.WARNING]
         return ("warned" if any(r.levelno >= logging.WARNING for r in cap.records) else "ok"), None
     finally:
         root.handlers = old_handlers
@@ -441,6 +447,11 @@ def run_flows(desc):
             require(flagged == bool(expected), "check_flows-overall-verdict", f"{how} with raise_error={raise_error}; {ctx}")
             if not raise_error:
                 require(how != "raised", "check_flows-crashes-verbose" if desc.get("verbose") else "check_flows-raises-in-warn-mode", f"{type(err).__name__ if err else ''}: {str(err)[:80]}; {ctx}")
+                # which flows the warnings name: every violating flow, and no other (flow names F<i> are
+                # distinct tokens that occur in no item label)
+                named = {n for n in vals if any(re.search(rf"(?<![A-Za-z0-9_]){n}(?![A-Za-z0-9_])", m) for m in LAST_WARNINGS)}
+                require(expected <= named, "check_flows-warnings-miss-flow", f"warnings name {sorted(named)}; {ctx}")
+                require(named <= expected, "check_flows-warnings-name-clean-flow", f"warnings name {sorted(named)}; {ctx}")
         # excepted flows are never reported
         how, err = observe(lambda: mfa.check_flows(exceptions=sorted(vals), raise_error=True))
         require(how == "ok", "check_flows-reports-excepted-flow", ctx)
@@ -454,8 +465,8 @@ def flow_cases(draw):
     if not flows:
         flows = [{"src": 0, "dst": 0, "letters": ["t"]}]
     edits = [
-        {"flow": draw(st.integers(0, 10)), "pos": draw(st.integers(0, 50)), "kind": draw(st.sampled_from(["nan", "neg", "neg", "just-below", "just-above", "just-above"]))}
-        for _ in range(draw(st.integers(0, 3)))
+        {"flow": draw(st.integers(0, 10)), "pos": draw(st.integers(0, 50)), "kind": draw(st.sampled_from(["nan", "nan", "neg", "neg", "just-below", "just-above", "just-above"]))}
+        for _ in range(draw(st.integers(0, 4)))
     ]
     return {"universe": U, "nproc": nproc, "flows": flows, "stocks": stocks, "edits": edits, "bigstock": draw(st.sampled_from([None, None, 30])), "verbose": draw(st.booleans())}
 
